@@ -18,10 +18,11 @@ Amounts == {1, 2, 8, 9, 16}
 Intervals == {0, 1, 3, 4, 20}
 Groups == {"func", "P", "L"}
 \* form: where the user enters the code - a path on the issuer (UserFormPath) or the absolute URL of the deprecated UserFormURL setting;
+\* "pathNoSlash": the same path configured without its leading slash ("device/form") - still a path on the issuer ;
 \* either way every response names that address without the code, and with this response's own code
 CasesOf(g) == {[via |-> g, charset |-> cs, amount |-> a, interval |-> i, lifetime |-> lt, poll |-> pi, form |-> f] :
                   cs \in CharSets, a \in Amounts, i \in Intervals, lt \in (IF g = "func" THEN {300} ELSE {300, 77}), pi \in (IF g = "func" THEN {5} ELSE {5, 11}),
-                  f \in (IF g = "func" THEN {"path"} ELSE {"path", "url"})}
+                  f \in (IF g = "func" THEN {"path"} ELSE {"path", "pathNoSlash", "url"})}
 
 \* "-" exactly every `interval` characters (0 = no dashes), never leading or trailing
 NDashes(c) == IF c.interval = 0 THEN 0 ELSE (c.amount - 1) \div c.interval
